@@ -33,6 +33,10 @@ def gen_cases(pid, tier, seed):
                        if rng.random() < 0.7 else []),
             'sample': i < 2, 'small_files': i % 3 == 0,
         }
+        if i % 5 == 4:
+            # the same observables re-read after blocks were replaced (anything memoised across a reorg shows up here)
+            case['reorg_limit'] = 3
+            case['events'] = case['events'] + [{'k': 'fork', 'depth': rng.randrange(1, 4), 'ext': 1}]
         cases.append(case)
     return cases
 
